@@ -102,6 +102,14 @@ def generate(repo):
         flag("catbChecked.copyb", "stralloc_opyb.c", r"if \(__builtin_add_overflow\(n, 1, &i\)\) \{\n\s*errno = error_nomem;\n\s*return 0;\n\s*\}\n\s*if \(!stralloc_ready\(sa,i\)\) return 0;"))
     f["quoteChecked"] = flag("quoteChecked", "quote.c",
                              r"if \(__builtin_mul_overflow\(sain->len, 2, &nlen\) \|\|\n\s*__builtin_add_overflow\(nlen, 2, &nlen\)\) \{\n\s*errno = error_nomem;\n\s*return 0;\n\s*\}\n\s*if \(!stralloc_ready\(saout,nlen\)\) return 0;")
+    # quote.c counter types (commit 26e354b: unsigned).  quoteSignedCounters = the counters of doit()/quote_need() are signed ints
+    m1 = re.search(r"static int doit\(saout,sain\)\nstralloc \*saout;\nstralloc \*sain;\n\{\n char ch;\n (unsigned int|int) i;\n (unsigned int|int) j;[^\n]*\n unsigned int nlen;\n", src("quote.c"))
+    m2 = re.search(r"int quote_need\(s,n\)\nchar \*s;\nunsigned int n;\n\{\n unsigned char uch;\n (unsigned int|int) i;\n if \(!n\) return 1;\n", src("quote.c"))
+    if not m1 or not m2:
+        un.append("quoteSignedCounters")
+        f["quoteSignedCounters"] = True
+    else:
+        f["quoteSignedCounters"] = not (m1.group(1) == m1.group(2) == m2.group(1) == "unsigned int")
     f["strallocBase"] = num("strallocBase", "stralloc_eady.c", r"GEN_ALLOC_readyplus\(stralloc,char,s,len,a,(\d+),stralloc_readyplus\)\nGEN_ALLOC_ready\(stralloc,char,s,len,a,\1,stralloc_ready\)", 0)
 
     out = "namespace Nq.Gen.C20Bounds\n\n"
